@@ -60,7 +60,7 @@ def parseSType (s : Sexp) : Option SType :=
 def csv (xs : List String) : String := if xs.isEmpty then "-" else ",".intercalate xs
 
 def showNOut (n : String) (o : NOut) : List (String × String) :=
-  [("params:" ++ n, csv (o.params.map (·.1))),
+  [("nparams:" ++ n, toString o.params.length),
    ("gi:" ++ n, csv (o.getIfaces.map (· ++ "Getter"))), ("si:" ++ n, csv (o.setIfaces.map (· ++ "Setter"))),
    ("gl:" ++ n, csv (o.getList.map Transfer.pascalS)), ("sl:" ++ n, csv (o.setList.map (fun x => "Set" ++ Transfer.pascalS x))),
    ("json:" ++ n, toString o.json),
